@@ -276,6 +276,10 @@ def handle (j : Json) : Except String Json := do
     let c ← circuitOfJson (← j.getObjVal? "c")
     let q ← (← j.getObjVal? "q").getStr?
     let ns := getStrListD j "ns"
+    -- `"ns": null` (or no key) is Python's None; `[]` is an empty collection
+    let nsOpt : Option (List String) := match j.getObjVal? "ns" with
+      | .ok (Json.arr _) => some ns
+      | _ => none
     let listR : Except Outcome (List String) → Json := fun r => match r with
       | .ok l => respond .ok [("r", jarr jstr l)]
       | .error e => respond e []
@@ -284,8 +288,8 @@ def handle (j : Json) : Except String Json := do
     | "fanout" => pure (listR (Query.fanoutOf c ns))
     | "transitive_fanin" => pure (listR (Query.transitiveFanin c ns))
     | "transitive_fanout" => pure (listR (Query.transitiveFanout c ns))
-    | "startpoints" => pure (listR (Query.startpoints c ns))
-    | "endpoints" => pure (listR (Query.endpoints c ns))
+    | "startpoints" => pure (listR (Query.startpointsOpt c nsOpt))
+    | "endpoints" => pure (listR (Query.endpointsOpt c nsOpt))
     | "is_cyclic" => pure (respond .ok [("r", Json.bool (Query.isCyclic c))])
     | "topo_sort" => pure (match Query.topoSort c with
         | some l => respond .ok [("r", jarr jstr l)]
